@@ -215,9 +215,9 @@ def writers_rule(ctx):
         ctx.instance('C03.R6', (q, ast.unparse(val) if val is not None else 'del'))
         v = val.value if isinstance(val, ast.Constant) else '?'
         fn = q.split('.')[-1]
-        if v is False and fn in ('exitExcludedRegion', 'resetState'):
+        if v is False and census.only_reached_through(ctx.model, q, ('ExcludeRegionState.exitExcludedRegion', 'ExcludeRegionState.resetState')):
             continue
-        if v is True and fn == 'enterExcludedRegion':
+        if v is True and census.only_reached_through(ctx.model, q, ('ExcludeRegionState.enterExcludedRegion',)):
             continue
         ctx.report('C03.R6', q, 'excluding = %s' % (ast.unparse(val) if val is not None else 'del'),
                    'the episode flag is written outside enterExcludedRegion / exitExcludedRegion / resetState',
